@@ -646,5 +646,5 @@ func TestVerif_C34(t *testing.T) {
 	defer s.Finish()
 	s.EnableSentinel()
 	logger.Disable()
-	kit.Run(s, "statistics_histories_vs_gp_model", kit.N{Quick: 12000, Thorough: 400000}, c34Gen, c34Check)
+	kit.Run(s, "statistics_histories_vs_gp_model", kit.N{Quick: 8000, Thorough: 200000}, c34Gen, c34Check)
 }
